@@ -15,7 +15,7 @@ def conditions(tier):
     q = tier == "quick"
     T = 100 if q else 900
     cs = []
-    dims = [(1, 2), (2, 1), (2, 2), (0, 1), (1, 0), (0, 0)] if q else [(h, w) for h in range(0, 4) for w in range(0, 4)]
+    dims = [(1, 1), (1, 2), (2, 1), (2, 2), (0, 1), (1, 0), (0, 0)] if q else [(h, w) for h in range(0, 4) for w in range(0, 4)]
     for codec in PUZZLES:
         for (h, w) in dims:
             L = 4 if (codec in ("nurikabe", "sudoku", "nurimisaki") and h * w == 2 and not q) or (not q and h * w <= 4) else 3
@@ -23,6 +23,8 @@ def conditions(tier):
                 L = 4
             if q and (h * w == 4 or codec == "yajilin"):
                 L = 2
+            if q and (h, w) == (1, 1):
+                L = 2 if codec == "yajilin" else 3          # a single cell: every token of up to two / three characters
             cs.append(C(HF, codec, "h_text", h, w, l=L, t=T * (2 if L >= 4 else 1),
                         key="h_text:%s:%s" % (codec, "dim0" if h * w == 0 else ("1xN" if min(h, w) == 1 else "HxW"))))
     # room codecs that do not start at offset 0 of the text
